@@ -179,6 +179,10 @@ def run_sharded(res, exe, args, total, env=None, nshards=None, timeout=900, cras
                     res.discarded["watchdog"] = res.discarded.get("watchdog", 0) + 1
                     res.inconclusive.append("watchdog at case %d: %s" % (case, cmd))
                     continue
+                if sig == "exit3" and "harness: arena exhausted" in err:
+                    # the harness's own memory bound (h/vp_mir.h VP_ARENA_SIZE), not a library failure: the case is dropped
+                    res.discarded["harness-arena-bound"] = res.discarded.get("harness-arena-bound", 0) + 1
+                    continue
                 if not crash_is_violation:
                     continue
                 fp = "%s:%s:%s" % (crash_fp_prefix, sig, san_summary(err) or "nosummary")
